@@ -150,6 +150,29 @@ def run(rep, build, tier, seed):
                 if r1[0] == 0 and (r1[0], r1[1]) != (r2[0], r2[1]):
                     rep.finding("behaviour|%s" % name, "formatting differs between %s and its saved/reloaded form" % name,
                                 {"kind": "config", "cfg_b64": common.b64(cfg), "saved_b64": common.b64(saved)})
+        # equivalent spellings of directives and names: same saved file, and nothing declared is lost
+        base_dir = b"type Foo Bar\nset BOOL __AND__\nmacro-open BEGIN_X\nmacro-close END_X\nmacro-else ELSE_X\nfile_ext CPP .ch .cxx\nfile_ext C-Header .hh\nfile_ext JAVA .jav\nfile_ext OC+ .mmx\nindent_columns = 3\nsp_arith = force\n"
+        variants = [("lower", base_dir.replace(b"CPP", b"cpp").replace(b"C-Header", b"c-header").replace(b"JAVA", b"java").replace(b"OC+", b"oc+").replace(b"BOOL", b"bool")),
+                    ("mixed", base_dir.replace(b"CPP", b"Cpp").replace(b"JAVA", b"Java").replace(b"indent_columns", b"Indent_Columns").replace(b"sp_arith = force", b"SP_ARITH FORCE")),
+                    ("seps", base_dir.replace(b"indent_columns = 3", b"indent_columns 3").replace(b"sp_arith = force", b"sp_arith=force").replace(b"type Foo Bar", b"type Foo,Bar"))]
+        Ib = cfgrun.impl_load(base_dir, wd)
+        need = [b".ch", b".cxx", b".hh", b".jav", b".mmx", b"Foo", b"Bar", b"__AND__", b"BEGIN_X", b"END_X", b"ELSE_X"]
+        for w in need:
+            rep.count(key=("declared", w), nontrivial=True)
+            if not any(l.split() and l.split()[-1] == w or (l.startswith(b"file_ext") and w in l.split()) for l in Ib["lines"]):
+                rep.finding("lost|%s" % w.decode(), "the saved config lost the declared word/extension %r" % w, {"kind": "config", "cfg_b64": common.b64(base_dir)})
+        for vn, vc in variants:
+            Iv = cfgrun.impl_load(vc, wd)
+            Mv = cfgrun.model_load(m, vc)
+            rep.count(key=("variant", vn), nontrivial=True)
+            rep.validated()
+            dv = cfgrun.compare(Iv, Mv)
+            if dv:
+                corr.append(("variant-" + vn, dv))
+            if Iv["rc"] == 0 and Iv["lines"] != Ib["lines"]:
+                diff = next(((a, b) for a, b in zip(Ib["lines"] + [None] * 3, Iv["lines"] + [None] * 3) if a != b), None)
+                rep.finding("spelling|%s" % vn, "equivalent spelling '%s' saves differently: %r vs %r" % (vn, diff[0], diff[1]),
+                            {"kind": "config", "cfg_b64": common.b64(vc)})
         rep.sample({"config": cfgs[0][0], "first_lines": cfgs[0][1].decode("latin1").split("\n")[:4]})
         rep.sample({"config": "references", "text": cfgs[len(value_configs(opts)) + 1][1].decode()})
         # --set equivalence: `--set name=value` == line `name=value`
